@@ -279,7 +279,11 @@ def run(ctx):
                 if not _flows_into_storage(cfg, rdm, n, c):
                     continue  # the view is consumed by arithmetic / never becomes field storage
                 if isinstance(a0, ast.Call) and call_name(a0) in FRESH:
-                    ctx.ok("R07.6", key, "view of a fresh array", fi, c)
+                    if call_name(c) == "broadcast_to":
+                        ctx.bad("R07.6", key, "every entry of the view aliases the fresh base array, which stays writeable and is reachable as "
+                                              "`.base` of the raw handle: lock the base before broadcasting", fi, c)
+                    else:
+                        ctx.ok("R07.6", key, "view of a fresh array", fi, c)
                 elif isinstance(a0, ast.Name):
                     # is the name (transitively) a parameter?
                     defs = rdm[n.id].get(a0.id, frozenset())
@@ -289,8 +293,16 @@ def run(ctx):
                                     for d in defs) and bool(defs)
                     scal = any(isinstance(t, ast.Call) and src(t.func) in ("np.isscalar", "numpy.isscalar") and src(t.args[0]) == a0.id and pol
                                for t, pol in known_atoms(cfg, n.id))
-                    if fresh_def or scal:
-                        ctx.ok("R07.6", key, "fresh array" if fresh_def else "guarded by np.isscalar", fi, c)
+                    locked_base = any(isinstance(st, ast.Assign) and src(st.targets[0]) == f"{a0.id}.flags.writeable" and src(st.value) == "False"
+                                      for st in walk_no_nested(fi.node))
+                    if fresh_def and call_name(c) == "broadcast_to" and not locked_base:
+                        ctx.bad("R07.6", key, f"every entry of the view aliases the fresh base `{a0.id}`, which stays writeable and is reachable as "
+                                              "`.base` of the raw handle", fi, c)
+                    elif scal and call_name(c) == "broadcast_to":
+                        ctx.bad("R07.6", key, f"numpy wraps the scalar `{a0.id}` in a writeable 0-d array that every entry of the view aliases; it is "
+                                              "reachable as `.base` of the raw handle (use the constructor that locks the base)", fi, c)
+                    elif fresh_def or scal:
+                        ctx.ok("R07.6", key, ("fresh array" + (" with a locked base" if locked_base else "")) if fresh_def else "guarded by np.isscalar", fi, c)
                     elif from_param and call_name(c) in ("asarray", "asanyarray") and \
                             any(pol and isinstance(t, ast.Call) and call_name(t) == "isinstance" and src(t.args[0]) == a0.id and "ndarray" in src(t.args[1])
                                 for t, pol in known_atoms(cfg, n.id)):
@@ -671,3 +683,46 @@ _run_c07b = run
 def run(ctx):  # noqa: F811
     _run_c07b(ctx)
     r07_7(ctx, ctx.model)
+
+
+def r07_8(ctx, m):
+    """the lock survives pickling and deep copies"""
+    ctx.rule("R07.8", "numpy does not pickle the `writeable` flag of an array: a class that keeps a read-only typestate next to a numpy "
+                      "buffer (AnyArray._writeable) must re-apply the lock when its state is restored (__setstate__ / __reduce__ that "
+                      "clears flags.writeable or calls lock() under the read-only state) - otherwise every unpickled or deep-copied "
+                      "field (MPI transfer, checkpoints, operator_tree_optimiser's deepcopy) hands out a writable buffer through .raw", floor=1)
+    A = m.cls(ANY, "AnyArray")
+    key = f"{A.key}::read-only state is re-applied to the numpy buffer on unpickling"
+    ss = A.methods.get("__setstate__")
+    red = A.methods.get("__reduce__") or A.methods.get("__reduce_ex__")
+    if ss is None and red is None:
+        ctx.bad("R07.8", key, "no __setstate__/__reduce__: the default protocol restores _writeable = False but the numpy array comes back writeable", A)
+        return
+    fi = ss or red
+    ctx.saw_func(fi)
+    cfg = cfg_of(fi)
+    relock = []
+    for n in cfg.nodes:
+        if n.kind != "stmt" or n.ast is None:
+            continue
+        t = src(n.ast).replace(" ", "")
+        if "flags.writeable=False" in t or t.endswith(".lock()"):
+            relock.append(n)
+    restores = any(isinstance(c, ast.Call) and src(c.func) in ("self.__dict__.update", "vars(self).update") for c in walk_no_nested(fi.node)) or \
+        any(isinstance(st, ast.Assign) and src(st.targets[0]) in ("self.__dict__", "self._val") for st in walk_no_nested(fi.node))
+    if not relock:
+        ctx.bad("R07.8", key, f"{fi.name} restores the state without clearing flags.writeable", fi)
+        return
+    guards = known_atoms(cfg, relock[0].id)
+    under_ro = any(("_writeable" in src(t) and not pol) or ("readonly" in src(t) and pol) for t, pol in guards) or \
+        any(isinstance(t, ast.UnaryOp) and "_writeable" in src(t) and pol for t, pol in guards)
+    ctx.check("R07.8", key, True if (restores and (under_ro or not guards)) else None,
+              f"`{short(relock[0].ast, 60)}` under {[('' if p else 'not ') + src(t) for t, p in guards]}", fi, relock[0].ast)
+
+
+_run_c07d = run
+
+
+def run(ctx):  # noqa: F811
+    _run_c07d(ctx)
+    r07_8(ctx, ctx.model)
